@@ -53,10 +53,6 @@ example : Spec.trends [⟨0, false⟩, ⟨1, true⟩] [0, 1, 1] =
 
 /-! ### The code as it is: known findings (mirror models, tied by correspondence) -/
 
-/-- value reported by `flush()` for query `q` (absent = 0) -/
-def flushed (r : List (Nat × Nat × Nat) × List (Nat × Nat)) (q : Nat) : Nat :=
-  ((r.2.find? (·.1 == q)).map (·.2)).getD 0
-
 /-- `C25-hamlet-count`: `HamletAggregator` does not report the number of trends.
 `A -> B+` over `A B`: one trend, `flush()` reports 3; `A+ -> B` over `A`: no trend, `flush()` reports 2. -/
 theorem hamlet_count_counterexample :
@@ -102,10 +98,6 @@ theorem greta_shared_edges_counterexample :
   intro h
   have := h [⟨0, true⟩, ⟨1, false⟩] [⟨0, false⟩, ⟨1, true⟩] [0, 1, 1] (by decide) (by decide)
   revert this; decide
-
-/-- last value the engine reported for stream `i` (none = 0) -/
-def lastReported (r : List (Nat × Nat × Nat)) (i : Nat) : Nat :=
-  (((r.filter (·.2.1 == i)).getLast?).map (·.2.2)).getD 0
 
 /-- `C25-engine-count`: `.trend_aggregate(n: count_trends())` — `all A -> B` over `A B` emits `n = 2`
 (one trend); `A -> all B` over `A B B` emits `n = 1` once and never again (three trends). -/
